@@ -34,7 +34,7 @@ TASK: produce TWO independent, realistic changes to the library source (under {w
 {excl}
 For EACH change i in (1, 2) deliver, inside the directory {wt}/MUTANTS/m<i>/ :
   - patch.diff : output of `git diff` for that change alone (relative to the unmodified worktree HEAD; must apply with `git apply` on a clean checkout). Only library source files, no test edits.
-  - demo.py    : a small stand-alone program (plain Python, no pytest needed) that exits with status 0 on the UNMODIFIED tree and with a non-zero status (failed assert / printed explanation) WITH the change applied, demonstrating that the property is violated. It is run as `cd {wt} && /venv/bin/python MUTANTS/m<i>/demo.py` (so `import traits` picks up the worktree).
+  - demo.py    : a small stand-alone program (plain Python, no pytest needed) that exits with status 0 on the UNMODIFIED tree and with a non-zero status (failed assert / printed explanation) WITH the change applied, demonstrating that the property is violated. It is run as `cd {wt} && PYTHONPATH={wt} /venv/bin/python MUTANTS/m<i>/demo.py` (PYTHONPATH makes `import traits` pick up the worktree - a bare `python MUTANTS/...` would import the installed copy; let the demo assert that `traits.__file__` lies under {wt}).
   - notes.md   : 5-15 lines: what the change does, why it breaks the property, what exactly is needed for it to manifest, and the exact commands you ran with their outcome (full test suite result with the change, demo result with and without the change).
 
 PROCEDURE per change: start from a clean tree (`git -C {wt} checkout -- traits` ), make the change, rebuild if C, run the full suite (must be green - if any test fails, revise the change, do not touch tests), run demo.py (must fail), save `git diff -- traits > MUTANTS/m<i>/patch.diff`, then revert (`git checkout -- traits`, rebuild if C) and confirm demo.py passes on the clean tree. Leave the worktree clean (reverted, rebuilt) at the end; the MUTANTS directory is untracked and stays.
